@@ -1,18 +1,23 @@
 #!/usr/bin/env python3
 # Regenerates /verif/MANIFEST.json from the table below (kept in one place so it is always valid).
 import json
+TX_NOTE = "Trusted: SimNet (stream-level model of one QUIC connection, semantics in DESIGN.md 2.4) instead of quic-go; the app shell around the engines is a stub (sender closes with code 0 on return, receiver exits without closing); the go/ast yield generator; testing/synctest; one fake clock for both nodes."
 checks = {
+ "C02": dict(level="fault_enumeration", design="3/C02",
+   text="Every run executes one seeded workload/configuration/schedule fault-free to learn its delivery sequence and then re-executes it with 1-2 injected faults (graceful close with code 0 by either side, abrupt loss, cancellation of sender or receiver, bit flip in chunk payload or checksum, source file shrunk or removed after the scan, obstructed output path, failing receiver file operation). Connection faults are anchored to delivery indices of that execution; the thorough tier additionally places a fault at every delivery index of selected executions. Oracle per side: error, or success with an identical complete tree (receiver) / with FileDone{ok} written by the receiver for every file (sender); both sides must have returned within the simulated bound. Fault kinds and positions are enumerated per schedule; schedules and workloads are sampled.",
+   note=TX_NOTE + " Bit flips stand for corruption below the chunk CRC (QUIC authenticates packets). A fault takes effect at segment granularity, segments being cut at seeded positions down to single bytes.",
+   technique="deterministic simulation with fault injection: seeded schedules, faults anchored to (thorough: enumerated over) the delivery sequence of a recorded execution"),
  "C03": dict(level="exploration", design="3/C03",
    text="Seeded search, fault-free: the real SendManifestMultiStream and RecvManifestMultiStream run as two nodes over the simulated QUIC-stream network and the interposed file system in one synctest bubble; workload (tree shape, sizes around chunk boundaries, odd legal names, empty/zero-length cases), configuration (chunk size, 1-8 streams, 1-4 connections, resume per side, hash, root/scan mode, QUIC role, segment size, flow-control window) and schedule (random/weighted/PCT/FIFO, clock stalls, starved actors) are drawn per run. Oracle: both engines return nil before the simulated deadline; otherwise the run is classified as error or hang with the blocked sites. Sampling, not proof.",
-   note="Trusted: SimNet (stream-level model of one QUIC connection, semantics in DESIGN.md 2.4) instead of quic-go; the app shell around the engines is a stub (sender closes with code 0 on return, receiver exits without closing); the go/ast yield generator; testing/synctest; one fake clock for both nodes.",
+   note=TX_NOTE,
    technique="deterministic simulation: seeded schedules over generated yield points, simulated network and clock, liveness as completion within a simulated-time bound"),
  "C01": dict(level="exploration", design="3/C01",
    text="Same simulated runs as C03 (fault-free, all configurations and schedules); whenever both engines report success the output directory digest (paths, types, sizes, SHA-256) must equal the digest of the generated source tree, with nothing else present except the resume-metadata directory. Runs where a side fails are counted as outside this property. Sampling, not proof.",
-   note="Trusted: SimNet (stream-level model of one QUIC connection, semantics in DESIGN.md 2.4) instead of quic-go; the app shell around the engines is a stub (sender closes with code 0 on return, receiver exits without closing); the go/ast yield generator; testing/synctest; one fake clock for both nodes. Real QUIC (transferquic/quic-go) is not exercised by this check.",
+   note=TX_NOTE + " Real QUIC (transferquic/quic-go) is not exercised by this check.",
    technique="deterministic simulation with seeded schedules; end-state digest comparison against the generated source tree"),
  "C17": dict(level="exploration", design="3/C17",
    text="Same simulated runs as C03; every Write of the sender is recorded with the scheduler step at which it was issued and decoded with the repository's decoders; the history must contain exactly one FileBegin and one FileEnd per file, no chunk frame twice (except the verified chunk once more), FileEnd after the last chunk write of its file, nothing after FileEnd, and every needed chunk either written or advertised as present by the receiver. Sampling over schedules, not proof.",
-   note="Trusted: SimNet (stream-level model of one QUIC connection, semantics in DESIGN.md 2.4) instead of quic-go; the app shell around the engines is a stub (sender closes with code 0 on return, receiver exits without closing); the go/ast yield generator; testing/synctest; one fake clock for both nodes. The clause about chunks reported present below the verification point is judged only through 'needed chunk written or advertised' and 'no chunk twice'; the instant at which the report becomes known to the sender is internal and not observable on the wire.",
+   note=TX_NOTE + " The clause about chunks reported present below the verification point is judged only through 'needed chunk written or advertised' and 'no chunk twice'; the instant at which the report becomes known to the sender is internal and not observable on the wire.",
    technique="deterministic simulation; history check over the recorded, step-stamped wire trace"),
  "C11": dict(level="exploration", design="3/C11",
    text="Seeded search over interleavings of the real peers.Hub (generated yield points before every lock, channel operation and goroutine start, fake clock) driven by 2-6 scripted actors; every run is checked for panics, simulator-detected deadlock, leaked routing state / writer goroutines, mis-routed deliveries, and its operation history is checked for linearizability against a sequential routing-table model with porcupine. Sampling, not proof: a clean batch is evidence.",
